@@ -147,4 +147,10 @@ def list_props():
 
 def run_selftest(props, repo_root, jobs):
     from . import variants
-    return variants.selftest_cli(props or PROPS, repo_root, jobs)
+    code = variants.selftest_cli(props or PROPS, repo_root, jobs)
+    if not props:
+        # the whole table was asked for: also the conformance suite of the interpreter itself
+        from . import conformance
+        if conformance.run(repo_root, verbose=False):
+            code = code or 2
+    return code
